@@ -85,6 +85,7 @@ def apply_step(rng, ix, a, op):
             st.args = {"other": I.to_json(other)}
             operands.append(("other", other, I.snapshot(other)))
             ix.append(other)
+            must_not_share.append((ix, other))
             st.expect_dense = np.concatenate([a, b.reshape((b.shape[0],) + a.shape[1:])])
             new_a = st.expect_dense
             st.req = {"op": "iidx", "m": "append", "self": st.pre, "other": st.args["other"]}
@@ -272,6 +273,10 @@ def apply_step(rng, ix, a, op):
     for name, obj, snap in operands:
         if I.snapshot(obj) != snap:
             st.fails.append(("C06", "C06-operand-changed", "%s left its %s changed" % (op, name)))
+            # an operand is an index the caller still holds: it is reachable, so it must still be well-formed (C07)
+            if hasattr(obj, "common") and hasattr(obj, "shape"):
+                for p in I.wf_problems(obj):
+                    st.fails.append(("C07", "C07-" + _wf_class(p), "after %s, its %s (still held by the caller): %s" % (op, name, p)))
     for res, src in must_not_share:
         if res is src:
             st.fails.append(("C06", "C06-shares-storage", "%s returned its source object instead of a new index: a later "
